@@ -431,12 +431,17 @@ def expr_state(m, with_vars=True):
 
 def state_of(m):
     """JSON-able exact state; two models are 'the same model' iff their states are equal."""
+    if isinstance(m, (dimod.BinaryQuadraticModel, dimod.QuadraticModel)):
+        _idx = {key(v): i for i, v in enumerate(m.variables)}
+        _nbh = [[[_idx[key(u)], fx(b)] for u, b in m.iter_neighborhood(v)] for v in m.variables]
     if isinstance(m, dimod.BinaryQuadraticModel):
         s = expr_state(m)
+        s["nbh"] = _nbh
         s.update(type="BQM", dtype=np.dtype(m.dtype).name, vartype=m.vartype.name)
         return s
     if isinstance(m, dimod.QuadraticModel):
         s = expr_state(m)
+        s["nbh"] = _nbh
         s.update(type="QM", dtype=np.dtype(m.dtype).name,
                  vinfo=[[m.vartype(v).name, fx(m.lower_bound(v)), fx(m.upper_bound(v))] for v in m.variables])
         return s
@@ -585,6 +590,22 @@ def bqm_file_term(bqm, version, ignore_labels):
         labels = None if (ignore_labels or is_range(vs)) else vs
     return (f"(mkBqmFile ({cN(version)}, 0%N) {cdtype(dt)} {'BSPIN' if bqm.vartype is dimod.SPIN else 'BBINARY'} "
             f"{cN(bqm.num_interactions)} {cbytes(t(bqm.offset).tobytes())} {lin} {adj} {clabels(labels)})")
+
+
+def full_adj_term(m):
+    """Coq list (list (N * bytes)): every neighbourhood of m in iteration order"""
+    t = fdt(m).type
+    vs = list(m.variables)
+    idx = {key(v): i for i, v in enumerate(vs)}
+    return clist([clist([cpair(cN(idx[key(u)]), cbytes(t(b).tobytes())) for u, b in m.iter_neighborhood(v)]) for v in vs])
+
+
+def neig_term(qm):
+    t = fdt(qm).type
+    vs = list(qm.variables)
+    idx = {key(v): i for i, v in enumerate(vs)}
+    return clist([clist([cpair(cN(idx[key(u)]), cbytes(t(b).tobytes())) for u, b in qm.iter_neighborhood(v)
+                         if idx[key(u)] <= i]) for i, v in enumerate(vs)])
 
 
 def qm_file_term(qm):
